@@ -34,11 +34,17 @@ pub struct Offer {
     /// minimum (a safe `&mut str` / `String` sink must stay valid even then;
     /// nothing else is expected of such a call)
     pub submin: bool,
+    /// per-call choice of method (C05-C08 only): 0 = the session's own,
+    /// 1 = replacing, 2 = non-replacing; and of output form: 0 = the
+    /// session's own, 1 = UTF-8, 2 = UTF-16. The API allows a caller to mix
+    /// them freely on one decoder.
+    pub method: u8,
+    pub form: u8,
 }
 
 impl Offer {
     pub fn large() -> Offer {
-        Offer { cap: if crate::gen::tiny() { 96 } else { 1 << 14 }, kind: K_SLICE, fill: 0, phase: 0, dst_off: 0, src_off: 0, query: false, pipe_cut: 0, pipe_hold: 0, submin: false }
+        Offer { cap: if crate::gen::tiny() { 96 } else { 1 << 14 }, kind: K_SLICE, fill: 0, phase: 0, dst_off: 0, src_off: 0, query: false, pipe_cut: 0, pipe_hold: 0, submin: false, method: 0, form: 0 }
     }
 }
 
@@ -106,6 +112,9 @@ pub struct Profile {
     pub submin: bool,
     /// ... whatever the sink kind (MEMSINK: every sink of the str functions is a safe `&mut str`)
     pub submin_any_kind: bool,
+    /// the pump switches between replacing / non-replacing methods and
+    /// between UTF-8 / UTF-16 output from call to call
+    pub switch_methods: bool,
 }
 
 impl Profile {
@@ -138,6 +147,7 @@ impl Profile {
             thresholds: Vec::new(),
             submin: false,
             submin_any_kind: false,
+            switch_methods: false,
         }
     }
 }
@@ -220,7 +230,11 @@ impl<'a> PrngSource<'a> {
         } else {
             (0, 0)
         };
-        let mut o = Offer { cap, kind, fill, phase, dst_off, src_off, query, pipe_cut, pipe_hold, submin: false };
+        let mut o = Offer { cap, kind, fill, phase, dst_off, src_off, query, pipe_cut, pipe_hold, submin: false, method: 0, form: 0 };
+        if self.profile.switch_methods {
+            o.method = self.rng.below(3) as u8;
+            o.form = self.rng.below(3) as u8;
+        }
         if self.profile.submin && (kind == K_STR || kind == K_STRING || self.profile.submin_any_kind) && self.rng.chance(1, 5) {
             o.submin = true;
             o.query = false;
@@ -371,7 +385,7 @@ impl OpSource for ReplaySource {
 pub fn offer_to_json(o: &Offer) -> Value {
     json!({"cap": o.cap, "kind": o.kind, "fill": o.fill, "phase": o.phase,
            "dst_off": o.dst_off, "src_off": o.src_off, "query": o.query,
-           "pipe_cut": o.pipe_cut, "pipe_hold": o.pipe_hold, "submin": o.submin})
+           "pipe_cut": o.pipe_cut, "pipe_hold": o.pipe_hold, "submin": o.submin, "method": o.method, "form": o.form})
 }
 
 fn offer_from_json(v: &Value) -> Option<Offer> {
@@ -386,6 +400,8 @@ fn offer_from_json(v: &Value) -> Option<Offer> {
         pipe_cut: v.get("pipe_cut").and_then(|x| x.as_u64()).unwrap_or(0) as u8,
         pipe_hold: v.get("pipe_hold").and_then(|x| x.as_u64()).unwrap_or(0) as u8,
         submin: v.get("submin").and_then(|x| x.as_bool()).unwrap_or(false),
+        method: v.get("method").and_then(|x| x.as_u64()).unwrap_or(0) as u8,
+        form: v.get("form").and_then(|x| x.as_u64()).unwrap_or(0) as u8,
     })
 }
 
